@@ -6,8 +6,13 @@
    to_xyz, Links.from_vector / to_vector / opposite are the definitions of Generated/GenGeometry.v,
    translated from the current text of rig/geometry.py and rig/links.py on every run (with the live
    link tables of Generated/GenGeometryLinks.v).  shortest_mesh_path, shortest_torus_path,
-   longest_dimension_first, concentric_hexagons are the hand models of Model/Geometry.v, compared with
-   the implementation on every run.  "Distance" is never a formula: Spec/Geometry.v defines the mesh and
+   longest_dimension_first, concentric_hexagons are the models of Model/Geometry.v: their loops, the
+   min / sorted calls and the generator are hand-written skeletons, matched against the source on every
+   run, while the arithmetic and the constants inside them (Generated/GenGeometryShapes.v) are translated
+   from the current text: torus_head, torus_approaches_src, torus_spiral, mesh_path_component,
+   hexagon_dirs / first_ring / layer_step are what the models execute; ldf_sign, ldf_count, ldf_delta_src,
+   ldf_advance are proved equal to the model's definitions (C11_ldf_source_tie).  The models are compared
+   with the implementation on every run.  "Distance" is never a formula: Spec/Geometry.v defines the mesh and
    the torus as graphs over the six link vectors and the distance as the least length of a walk.
 
    Random draws: random.random() = k / 2^53 is the argument k (any integer for shortest_torus_path,
@@ -15,7 +20,7 @@
    sum); random.randint is the function argument rint, constrained only by its contract. *)
 From Coq Require Import ZArith List Bool.
 Require Import Rig.Model.Base Rig.Generated.GenGeometryLinks Rig.Generated.GenGeometry
-        Rig.Model.Geometry Rig.Spec.Geometry Rig.Proofs.Geometry Rig.Proofs.GeometryHex.
+        Rig.Generated.GenGeometryShapes Rig.Model.Geometry Rig.Spec.Geometry Rig.Proofs.Geometry Rig.Proofs.GeometryHex.
 Import ListNotations.
 Open Scope Z_scope.
 
@@ -131,6 +136,54 @@ Proof. exact hexagons_ok. Qed.
 Theorem C11_hexagons_negative_radius :
   forall R start, R < 0 -> concentric_hexagons R start = [start].
 Proof. exact hexagons_negative_radius. Qed.
+
+(* a generator consumed part-way (abandoned, suspended, or of a huge radius): what it has yielded is the
+   beginning of the list of every smaller radius that is long enough -- independent of the radius asked *)
+Theorem C11_hexagons_prefix :
+  forall r R start, 0 <= r <= R ->
+    exists tail, concentric_hexagons R start = concentric_hexagons r start ++ tail.
+Proof. exact hexagons_prefix. Qed.
+
+Theorem C11_hexagons_prefix_firstn :
+  forall n r R start, 0 <= r <= R -> (n <= length (concentric_hexagons r start))%nat ->
+    firstn n (concentric_hexagons R start) = firstn n (concentric_hexagons r start).
+Proof. exact hexagons_prefix_firstn. Qed.
+
+(* ---- error clauses *)
+(* Links.from_vector raises KeyError exactly on the null vector *)
+Theorem C11_links_from_vector_error : forall v, links_from_vector v = None <-> v = (0, 0).
+Proof. exact links_from_vector_error. Qed.
+
+(* a zero width / height raises (ZeroDivisionError) at the first step; a null vector makes no step *)
+Theorem C11_ldf_zero_size_error :
+  forall k0 k1 k2 v start width height,
+    0 <= k0 < two53 -> 0 <= k1 < two53 -> 0 <= k2 < two53 ->
+    size_zero width || size_zero height = true ->
+    longest_dimension_first k0 k1 k2 v start width height =
+    if hops v =? 0 then Ok [] else OtherError.
+Proof. exact ldf_zero_size_error. Qed.
+
+(* ---- tie of longest_dimension_first's arithmetic to the source: the `sign = ...` expression, the repeat
+   count, the if / elif choosing (dx, dy) and the four statements advancing and wrapping (x, y), each
+   translated from the current text, equal the definitions the model uses *)
+Theorem C11_ldf_source_tie :
+  (forall m, ldf_sign m = (if m >? 0 then 1 else -1)) /\
+  (forall m, ldf_count m = Z.abs m) /\
+  (forall dim sign, 0 <= dim <= 2 -> ldf_delta_src dim sign = ldf_delta dim sign) /\
+  (forall x y dx dy width height,
+      size_zero width || size_zero height = false ->
+      bind (wrapo width (x + dx)) (fun x' => bind (wrapo height (y + dy)) (fun y' => Ok (x', y'))) =
+      Ok (ldf_advance x y dx dy (has_size width) (size_val width) (has_size height) (size_val height))).
+Proof. exact ldf_source_tie. Qed.
+
+(* ---- the dumped dictionaries of rig/links.py *)
+Theorem C11_links_direction_table_sound :
+  forall k v, direction_link_lookup k = Some v -> exists l, k = link_num l /\ v = link_vec l.
+Proof. exact direction_link_lookup_sound. Qed.
+
+Theorem C11_links_lookup_table_links :
+  Forall (fun e => exists l, snd e = link_num l) link_direction_table.
+Proof. exact link_direction_table_links. Qed.
 
 (* ---- the hypotheses are satisfiable, the conclusions not vacuous *)
 Example C11_hexagons_instance :
